@@ -86,7 +86,10 @@ class AgentWorld:
         a = self.agents[name]
         a._running = False
         a._comm.shutdown()
-        a._on_stop()
+        try:
+            a._on_stop()
+        except Exception as e:      # (Agent._run calls it in its `finally`: the exception ends the thread with the clean-up half done)
+            self.exc.append((name, "", "", "_on_stop", "%s: %s" % (type(e).__name__, str(e)[:160])))
         self.stopped.add(name)
 
     def run(self, max_steps=20000, until=None, choose=None):
